@@ -40,9 +40,8 @@ fn body_len(rng: &mut Rng, ctx: &mut Ctx) -> usize {
     if ctx.tiny {
         return match rng.below(8) {
             0 => 0,
-            1..=4 => rng.range(1, 10) as usize,
-            5..=6 => rng.range(11, 40) as usize,
-            _ => *rng.pick(&[255usize, 256, 257]),
+            1..=5 => rng.range(1, 6) as usize,
+            _ => rng.range(7, 14) as usize,
         };
     }
     match rng.below(100) {
@@ -115,6 +114,9 @@ const NAME_PARTS: &[&str] = &[
 
 /// Node, lane and host names.
 pub fn name(rng: &mut Rng, ctx: &mut Ctx) -> String {
+    if ctx.tiny {
+        return rng.pick(&["", "a", "/n", "é", "ノ", "\u{10000}", "l1"]).to_string();
+    }
     match rng.below(12) {
         0 => String::new(),
         1..=7 => {
@@ -193,6 +195,9 @@ const TEXTS: &[&str] = &[
 ];
 
 fn raw_text(rng: &mut Rng, ctx: &mut Ctx) -> String {
+    if ctx.tiny {
+        return rng.pick(TEXTS).to_string();
+    }
     match rng.below(10) {
         0..=5 => rng.pick(TEXTS).to_string(),
         6..=7 => {
@@ -210,7 +215,8 @@ fn raw_text(rng: &mut Rng, ctx: &mut Ctx) -> String {
 }
 
 fn raw_value(rng: &mut Rng, ctx: &mut Ctx, depth: u32) -> Value {
-    let top = if depth == 0 { 9 } else { 13 };
+    let depth = if ctx.tiny { depth.min(1) } else { depth };
+    let top = if depth == 0 { 9 } else { 11 + 2 * (!ctx.tiny) as u64 };
     match rng.below(top) {
         0 => Value::Extant,
         1 => Value::BooleanValue(rng.bool()),
@@ -347,11 +353,11 @@ pub fn bare_ok<T: TBody>(payload: &[u8], cut: usize) -> bool {
     use bytes::BytesMut;
     use swimos_recon::parser::RecognizerDecoder;
     use tokio_util::codec::Decoder;
-    let Ok(text) = std::str::from_utf8(payload) else { return true };
-    let Ok(oneshot) = parse_recognize::<T>(text, false) else { return true };
     if cut == 0 || cut >= payload.len() {
         return true;
     }
+    let Ok(text) = std::str::from_utf8(payload) else { return true };
+    let Ok(oneshot) = parse_recognize::<T>(text, false) else { return true };
     let r = std::panic::catch_unwind(std::panic::AssertUnwindSafe(|| {
         let mut d = RecognizerDecoder::new(T::make_recognizer());
         let mut b = BytesMut::from(&payload[..cut]);
